@@ -311,7 +311,11 @@ def run_all(case, ctx, res):
         for j, i in enumerate(extra_ids):
             (root / f"extra{j}.py").write_text(f"# SPDX-FileCopyrightText: 2020 E\n# SPDX-License-Identifier: {i if 'exception' not in i else 'MIT WITH ' + i}\n")
         r0 = run_cli(["--no-multiprocessing", "--root", str(root), "lint", "--json"], cwd=str(root))
-        missing = set(json.loads(r0.stdout)["non_compliant"]["missing_licenses"])
+        try:
+            missing = set(json.loads(r0.stdout)["non_compliant"]["missing_licenses"])
+        except ValueError:
+            res.violation("lint-gives-no-report", f"lint --json exit {r0.exit_code} without a report before download --all", **r0.brief())
+            return
         served = {i for i in missing if (i[:-1] if i.endswith("+") else i) in spdx}
         stub.behaviour = {f"{i[:-1] if i.endswith('+') else i}.txt": "200" for i in served}
         stub.log.clear()
@@ -330,7 +334,11 @@ def run_all(case, ctx, res):
                 res.violation("file-outside-documented-place", f"download --all created {rel}")
                 return
         r2 = run_cli(["--no-multiprocessing", "--root", str(root), "lint", "--json"], cwd=str(root))
-        still = set(json.loads(r2.stdout)["non_compliant"]["missing_licenses"])
+        try:
+            still = set(json.loads(r2.stdout)["non_compliant"]["missing_licenses"])
+        except ValueError:
+            res.violation("lint-gives-no-report", f"lint --json exit {r2.exit_code} without a report after download --all", **r2.brief())
+            return
         unobtainable = {i for i in missing if i not in served and not i.startswith("LicenseRef-")}
         if still - unobtainable:
             res.violation("obtainable-licence-not-supplied", f"download --all (exit {r.exit_code}) left {sorted(still - unobtainable)} missing although the "
